@@ -86,6 +86,10 @@ func lemmaJSONRoundTripScalar(v *VMValue, out *VMValue) bool {
 	return out.TypeId == v.TypeId && out.Value == v.Value
 }
 
+// strLine(s, k): line k (0-based) of s, lines separated by "\n"; strLineCount(s): number of such lines (>= 1).
+func strLine(s string, k int) string { panic("spec only") }
+func strLineCount(s string) int      { panic("spec only") }
+
 // sameFloat(a, b): identical float values (spec only; Go's == is not reflexive on NaN).
 func sameFloat(a, b float64) bool { panic("spec only") }
 
@@ -1033,6 +1037,8 @@ func fmtErr
 
 func getLineAtBytes
   props C19 C01
+  ensures [C19] 1 <= line && line <= strLineCount(string(input)) && len(strLine(string(input), line-1)) <= 60 ==> result == strLine(string(input), line-1)
+  ensures [C19] 1 <= line && line <= strLineCount(string(input)) && len(strLine(string(input), line-1)) > 60 ==> len(result) == 60
 
 func getPrevNonSpaceChar
   props C19 C01
